@@ -946,3 +946,92 @@ EXTRA["C14"].append((check_argument_walk, "C14.11"))
 EXTRA["C14"].append((count_integrality, "C14.12"))
 EXTRA["C09"] = [(relink_condition, "C09.13")]
 EXTRA["C20"].append((nan_clause, "C20.12"))
+
+
+# ---------------------------------------------------------------- fourth hunt wave
+
+def fillers_keep_definitions(ctx, rep, rule, modules):
+    ix = ctx.ix
+    rep.rule(rule, "a pass that rebuilds the circuit by name writes a gate statement as [`gate`, name, ...] only for macro calls (they must be linked to the rebuilt macro); every other statement is made by its own definition, which the circuit need not know by name", floor=len(modules))
+    for mod in modules:
+        gh = next((f for f in ix.functions.values() if f.module == mod and f.name == "visit_GateStatement" and f.cls), None)
+        if gh is None:
+            raise AnalysisError(f"{rule}: no gate handler in {mod}")
+        cons = construct_of(gh, "definition-kept")
+        gp = gh.params[1]
+        by_name = []
+        for e in ast.walk(gh.node):
+            if isinstance(e, (ast.List, ast.Tuple)) and e.elts and isinstance(e.elts[0], ast.Constant) and e.elts[0].value == "gate":
+                by_name.append(e)
+        by_def = [c for c in ast.walk(gh.node) if isinstance(c, ast.Call) and isinstance(c.func, ast.Attribute) and c.func.attr == "gate_def" and isinstance(c.func.value, ast.Name) and c.func.value.id == gp]
+        if not by_name:
+            rep.ok(rule, cons, "statements are never rebuilt by name", gh.loc())
+            continue
+        unguarded = []
+        for e in by_name:
+            ctrl = _enclosing_ifs(gh.node, e)
+            if not any(taken and "Macro" in ast.unparse(t) and "gate_def" in ast.unparse(t) and _positive_conjunct(t, lambda x: isinstance(x, ast.Call) and isinstance(x.func, ast.Name) and x.func.id == "isinstance") for t, taken in ctrl):
+                unguarded.append(e)
+        if unguarded:
+            rep.violation(rule, cons, f"`{ast.unparse(unguarded[0])[:70]}` rebuilds every statement by its name: a definition the circuit does not hold under that name -- the busy prepare/measure gates that expand_subcircuits makes up, or the ones its caller supplied -- is replaced by a made-up plain one (the block no longer uses every qubit) or the pass fails with `No gate .. defined`", f"{gh.path}:{unguarded[0].lineno}", witness="fill_in_let(expand_subcircuits(c, prepare_def=BusyGateDefinition('prepare_fast')))")
+        elif not by_def:
+            rep.violation(rule, cons, "statements that are not macro calls are not rebuilt at all", gh.loc())
+        else:
+            rep.ok(rule, cons, "by name for macro calls only; otherwise `gate.gate_def(*arguments)`", gh.loc())
+
+
+EXTRA["C05"].append((fillers_keep_definitions, "C05.16", ["jaqalpaq.core.algorithm.fill_in_let"]))
+EXTRA["C06"].append((fillers_keep_definitions, "C06.17", ["jaqalpaq.core.algorithm.fill_in_map"]))
+EXTRA["C10"] = [(fillers_keep_definitions, "C10.17", ["jaqalpaq.core.algorithm.fill_in_let", "jaqalpaq.core.algorithm.fill_in_map"])]
+
+
+def macro_descent_memoised(ctx, rep, rule):
+    ix = ctx.ix
+    rep.rule(rule, "a walk of the builder that descends from a call into the called macro's body (a question about the macro alone, asked at every call site in a parallel or subcircuit block) keeps its answers per macro: without that, parsing `macro m{i} { m{i-1}; m{i-1} }` takes time 2**i", floor=1)
+    n = 0
+    for f in ix.functions.values():
+        if f.module != "jaqalpaq.core.circuitbuilder" or f.cls is not None or isinstance(f.node, ast.Lambda):
+            continue
+        recursive = [c for c in ast.walk(f.node) if isinstance(c, ast.Call) and isinstance(c.func, ast.Name) and c.func.id == f.name]
+        descends = any(isinstance(a, ast.Attribute) and a.attr in ("gate_def", "body") for c in recursive for arg in c.args for a in ast.walk(arg))
+        if not recursive or not descends:
+            continue
+        n += 1
+        cons = construct_of(f, "memo")
+        member = [c for c in ast.walk(f.node) if isinstance(c, ast.Compare) and isinstance(c.ops[0], (ast.In, ast.NotIn)) and isinstance(c.comparators[0], ast.Name) and c.comparators[0].id in f.all_params]
+        forwarded = all(any(isinstance(a, ast.Name) and a.id == member[0].comparators[0].id for a in list(c.args) + [k.value for k in c.keywords]) for c in recursive) if member else False
+        if member and forwarded:
+            rep.ok(rule, cons, f"answers are kept in `{member[0].comparators[0].id}` and handed to every recursive call", f.loc())
+        elif member:
+            rep.violation(rule, cons, "the memo is not handed on to the recursive calls: each of them starts from scratch", f.loc())
+        else:
+            rep.violation(rule, cons, f"`{f.name}` re-walks the body of a called macro at every call: with macros that call the previous one twice the parser needs time exponential in the number of macros for `< m29 | foo >` (and recurses as deep as the chain of macros is long)", f.loc(), witness="macro m0 { foo }; macro m1 { m0; m0 }; ... ; < m29 | foo >")
+    if n == 0:
+        rep.ok(rule, "core.circuitbuilder:macro-descent", "no function of the builder descends into called macros recursively")
+
+
+def file_text_untranslated(ctx, rep, rule):
+    ix = ctx.ix
+    rep.rule(rule, "the file entry points of the parser read the text without newline translation, so that a file and the string of its characters parse alike (the lexer treats a lone CR as a blank)", floor=2)
+    n = 0
+    for f in ix.functions.values():
+        if f.module != "jaqalpaq.parser.parser":
+            continue
+        for c in ast.walk(f.node):
+            if isinstance(c, ast.Call) and isinstance(c.func, ast.Name) and c.func.id == "open":
+                n += 1
+                cons = construct_of(f, "open")
+                kw = {k.arg: k.value for k in c.keywords}
+                nl = kw.get("newline")
+                binary = any(isinstance(a, ast.Constant) and isinstance(a.value, str) and "b" in a.value for a in c.args[1:2]) or (isinstance(kw.get("mode"), ast.Constant) and "b" in kw["mode"].value)
+                if binary or (isinstance(nl, ast.Constant) and nl.value == ""):
+                    rep.ok(rule, cons, "no translation", f"{f.path}:{c.lineno}")
+                else:
+                    rep.violation(rule, cons, f"`{ast.unparse(c)}` translates a lone CR to a newline: `foo\\ra` is one gate with an argument as a string and two gates from a file; `loop 2\\r{{ foo }}` is accepted as a string and rejected from a file", f"{f.path}:{c.lineno}")
+    if n < 2:
+        raise AnalysisError(f"{rule}: only {n} open() calls in parser/parser.py")
+
+
+EXTRA["C16"].append((macro_descent_memoised, "C16.24"))
+EXTRA["C02"].append((macro_descent_memoised, "C02.11"))
+EXTRA["C02"].append((file_text_untranslated, "C02.12"))
